@@ -81,7 +81,9 @@ DEFINING = ["select", "select-second", "returning", "distinct-on", "insert-selec
 REFERRING = ["groupby-selected", "orderby-selected", "groupby-unselected", "orderby-unselected", "setop-orderby-selected",
              "groupby-selected-join", "groupby-selected-subquery",
              # the alias is defined only by a discarded sibling branch / another statement / a select list since replaced by *
-             "groupby-sibling-unselected", "orderby-sibling-unselected", "groupby-elsewhere-unselected", "orderby-after-star-unselected"]
+             "groupby-sibling-unselected", "orderby-sibling-unselected", "groupby-elsewhere-unselected", "orderby-after-star-unselected",
+             # only the second operand of a set operation defines the alias: the result's column names come from the first
+             "setop-orderby-later-branch-unselected"]
 
 
 def cases(tier, seed, shard, nshards):
@@ -95,6 +97,7 @@ def cases(tier, seed, shard, nshards):
                 k += 1
                 if k % nshards == shard:
                     yield {"k": "position", "d": d, "label": lab, "pos": pos}
+                    yield {"k": "position", "d": d, "label": lab, "pos": pos, "mode": "param"}
     # operand slots: the aliased term sits inside every composite
     ents = entries()
     for d in DIALECT_CLASSES:
@@ -106,7 +109,7 @@ def cases(tier, seed, shard, nshards):
                         continue
                     if tier == "quick" and (hash_stable(e["label"] + lab) + slot) % 2:
                         continue
-                    yield {"k": "operand", "d": d, "outer": e["label"], "slot": slot, "label": lab}
+                    yield {"k": "operand", "d": d, "outer": e["label"], "slot": slot, "label": lab, "mode": "param" if (k // nshards) % 3 == 0 else "inline"}
     for d in DIALECT_CLASSES:
         for src in ("table", "subquery", "setop", "table-join", "subquery-join"):
             k += 1
@@ -123,8 +126,11 @@ def norm(toks):
     return [(t.kind, t.value if t.kind in ("IDENT", "STR", "NUM", "WORD") else t.text) for t in toks]
 
 
-def sql_of(o, d):
-    return o.get_sql(contexts()[d])
+def sql_of(o, d, mode="inline"):
+    ctx = contexts()[d]
+    if mode == "param":  # aliases are a matter of structure: a parameterizer must not change where they appear
+        ctx = ctx.copy(parameterizer=R()["Parameterizer"]())
+    return o.get_sql(ctx)
 
 
 def insertion(plain, aliased, d):
@@ -186,6 +192,8 @@ def build_position(case, aliased):
     if pos == "groupby-elsewhere-unselected":
         str(Q.from_(t).select(x, y).groupby(x))
         return Q.from_(t).select(y).groupby(x)
+    if pos == "setop-orderby-later-branch-unselected":
+        return Q.from_(t).select(y).union(Q.from_(t).select(x)).orderby(x)
     if pos == "orderby-after-star-unselected":
         return Q.from_(t).select(x).select("*").orderby(x)
     raise ValueError(pos)
@@ -201,8 +209,8 @@ def run_position(case, mon):
     d, pos, lab = case["d"], case["pos"], case["label"]
     fam = DIALECT_OF[d] if d != "Query" else "generic"
     try:
-        plain = sql_of(build_position(case, False), d)
-        ali = sql_of(build_position(case, True), d)
+        plain = sql_of(build_position(case, False), d, case.get("mode", "inline"))
+        ali = sql_of(build_position(case, True), d, case.get("mode", "inline"))
     except Exception as e:
         mon.count("unbuildable")
         mon.add("unbuildable", "%s:%s:%s" % (lab, pos, type(e).__name__))
@@ -238,6 +246,14 @@ def run_position(case, mon):
         selected = selected or pos.startswith("groupby-selected")
         by_alias_allowed = selected and not (pos.startswith("groupby") and fam in ("mssql", "oracle"))
         want = (1 + (1 if by_alias_allowed else 0)) if selected else 0
+        if pos == "setop-orderby-later-branch-unselected":
+            want = 1  # the definition inside the second operand; the ORDER BY of the set operation must not use it
+            toks = tokenize(ali, d)
+            ob = [i for i, tk in enumerate(toks) if tk.kind == "WORD" and tk.value == "ORDER"]
+            if ob and any(tk.kind == "IDENT" and tk.value == AL for tk in toks[ob[-1]:]):
+                mon.violation("undefined-reference:%s:%s" % (cls, pos), "%s with %s (%s): the set operation's ORDER BY names an alias that only a later operand defines: %r" % (
+                    lab, pos, d, ali[:240]))
+                return
         # the reference either names the alias (allowed iff defined and permitted) or writes the expression in full
         if selected and n_alias == 1 and by_alias_allowed:
             want = 1  # expression written in full: also fine
@@ -270,7 +286,7 @@ def run_position(case, mon):
     mon.nontrivial(case)
     if pos == "groupby-selected" and lab in ("fn.Count", "fn.Sum", "fn.Avg", "fn.Min", "fn.Max"):
         return  # grouping by an aggregate is a semantic error in every engine, not an alias question
-    if d == "SQLLiteQuery" and lab in SQLITE_LABELS and pos in ("select", "groupby-selected", "orderby-selected", "select-second"):
+    if d == "SQLLiteQuery" and case.get("mode", "inline") == "inline" and lab in SQLITE_LABELS and pos in ("select", "groupby-selected", "orderby-selected", "select-second"):
         try:
             outer = 'SELECT "%s" FROM (%s)' % (AL, ali) if pos in ("select", "select-second") else ali
             db().execute("EXPLAIN " + outer)
@@ -319,8 +335,8 @@ def run_operand(case, mon):
                     f = r["Field"]("p%d" % i, table=t)
                     ops.append(f.isnull() if i in e["crit_slots"] else f)
             term = e["make"](ops)
-            sel = sql_of(Q.from_(t).select(term), d)
-            whr = sql_of(Q.from_(t).select(t.other).where(term == 1), d) if True else None
+            sel = sql_of(Q.from_(t).select(term), d, case.get("mode", "inline"))
+            whr = sql_of(Q.from_(t).select(t.other).where(term == 1), d, case.get("mode", "inline"))
             results.append((sel, whr))
     except Exception as ex:
         mon.count("unbuildable")
